@@ -167,6 +167,9 @@ DomainOK(n) == /\ NameBytes(n) \in 1..253
 IsAsciiChar(c) == c \in LowerSet \/ c \in UpperSet \/ c \in DigitSet
                   \/ c \in {"-", "_", "+", ":", " ", "*", "/", "%", "~", "!", "@", "#", "$", "="}
 IsAsciiName(n) == \A i \in 1..Len(n) : \A j \in 1..Len(n[i]) : IsAsciiChar(n[i][j])
+(* ValidateDomainName judges idna.ToASCII(name), which rewrites "xn--" labels; *)
+(* the model above is only claimed for names without such labels. *)
+HasAceLabel(n) == \E i \in 1..Len(n) : Len(n[i]) >= 4 /\ MapLabel(Lower, SubSeq(n[i], 1, 4)) = <<"x", "n", "-", "-">>
 
 ----------------------------------------------------------------------------
 (* Properties of the codec itself, checked by TLC over bounded sets of        *)
